@@ -351,6 +351,23 @@ int main() {
     } else if (kind == "R") {
       int prec = (int)c.u();
       if (prec == 32) meshCase<float, uint32_t>(id, c); else meshCase<double, uint64_t>(id, c);
+    } else if (kind == "S") {  // Smooth(mesh, sharpenedEdges): S id variant halfedge smoothness
+      const int variant = (int)c.u();                  // 0 MeshGL, 1 MeshGL64, 2 ctx.Smooth(MeshGL), 3 ctx.Smooth(MeshGL64)
+      const size_t he = (size_t)strtoull(c.next().c_str(), nullptr, 10);
+      const double sm = c.d();
+      std::vector<Smoothness> edges = {{he, sm}, {2, 0.5}};
+      const Manifold src = Manifold::Cube(vec3(1.0), true) + Manifold::Tetrahedron().Translate({3, 0, 0});
+      stage("Smooth");
+      Manifold m;
+      ExecutionContext ctx;
+      if (variant == 0) m = Manifold::Smooth(src.GetMeshGL(), edges);
+      else if (variant == 1) m = Manifold::Smooth(src.GetMeshGL64(), edges);
+      else if (variant == 2) m = ctx.Smooth(src.GetMeshGL(), edges);
+      else m = ctx.Smooth(src.GetMeshGL64(), edges);
+      stage("Smooth.Refine");
+      Manifold r = m.Refine(2);
+      observe(r);
+      usable(id, "Smooth", m);
     } else if (kind == "F") {
       int prec = (int)c.u();
       if (prec == 32) facesCase<float, uint32_t>(id, c); else facesCase<double, uint64_t>(id, c);
@@ -427,6 +444,32 @@ int main() {
         MeshGL g = c.GetMeshGL((int)n);
         MeshGL64 g64 = c.GetMeshGL64((int)n);
         m = Manifold(g64);
+      }
+      else if (what == "SetPropertiesN") m = Manifold::Cube().SetProperties((int)n, [](double* o, vec3 p, const double*) { o[0] = p.x; });
+      else if (what == "SetPropertiesNull") m = Manifold::Cube().CalculateNormals(0).SetProperties((int)n, nullptr);
+      else if (what == "ReserveIDs") {
+        volatile uint32_t first = Manifold::ReserveIDs((uint32_t)(long long)n);
+        (void)first;
+        m = Manifold::Cube().AsOriginal();
+      }
+      else if (what == "MinGap") {
+        volatile double g = Manifold::Cube().MinGap(Manifold::Cube().Translate({b, 0, 0}), a);
+        (void)g;
+        m = Manifold::Cube();
+      }
+      else if (what == "RayCast") {
+        auto hits = Manifold::Sphere(1, 8).RayCast({a, b, d}, {-a, 0.1, 0.2});
+        auto hits2 = Manifold::Sphere(1, 8).RayCast({0, 0, 0}, {a, b, d});
+        auto wn = Manifold::Sphere(1, 8).WindingNumber({{a, b, d}, {0, 0, 0}});
+        volatile size_t k = hits.size() + hits2.size() + wn.size();
+        (void)k;
+        m = Manifold::Cube();
+      }
+      else if (what == "SliceProject") {
+        auto s1 = Manifold::Sphere(1, 8).Slice(a);
+        volatile size_t k = s1.size();
+        (void)k;
+        m = Manifold::Cube();
       }
       else if (what == "Circle") { CrossSection cs = CrossSection::Circle(a, (int)n); m = Manifold::Extrude(cs.ToPolygons(), 1); }
       else if (what == "Square") { CrossSection cs = CrossSection::Square({a, b}, n & 1); m = Manifold::Extrude(cs.ToPolygons(), 1); }
